@@ -5,6 +5,10 @@
 (*   f       the face as counter-clockwise integer directions              *)
 (*   cw      TRUE iff it was handed over in the opposite traversal         *)
 (*   plon    "zero" | "west": which longitude a corner at a pole was given *)
+(*   fam     "lattice" | "polar" | "small": f itself was handed over, or   *)
+(*           its image under the scale maps of BoundsScale.tla (which      *)
+(*           inherit every feature decided here); turned = TRUE iff that   *)
+(*           image was rotated away from the lon = 0 seam                  *)
 (*   raised  TRUE iff the bound computation raised (then nothing else)     *)
 (*   mx, mn  features <<"c", j>> / <<"e", i>> / <<"p", s>> whose exact     *)
 (*           latitude the reported lat_max (lat_min) equals within 1e-9    *)
@@ -40,7 +44,8 @@ Clauses(r) ==
     LonFull     |-> encl => r.full,
     LonWest     |-> ~encl => Ran(r.lo) \cap WestSet(f) # {},
     LonEast     |-> ~encl => Ran(r.hi) \cap EastSet(f) # {},
-    Wrap        |-> ~encl => (WrapExpected(f) = "either" \/ (r.wrap <=> WrapExpected(f) = "yes")),
+    Wrap        |-> ~encl => IF r.turned THEN ~r.wrap       \* a small face turned away from the seam (BoundsScale!Turn)
+                             ELSE (WrapExpected(f) = "either" \/ (r.wrap <=> WrapExpected(f) = "yes")),
     EnclLatLo   |-> \A x \in Ran(r.encl) : x[1] # "lat_lo",
     EnclLatHi   |-> \A x \in Ran(r.encl) : x[1] # "lat_hi",
     EnclLon     |-> \A x \in Ran(r.encl) : x[1] \notin {"lon", "nonfinite"}
@@ -66,7 +71,7 @@ Lon0Covered(f) ==
     IN (Cross2(w, z) > 0 \/ SameLon(w, z)) /\ (Cross2(z, e) > 0 \/ SameLon(z, e))
 Sig(r) ==
   LET f == r.f IN
-  [ n |-> Len(f), cw |-> r.cw,
+  [ n |-> Len(f), cw |-> r.cw, family |-> r.fam, turned |-> r.turned,
     poleN |-> PoleStatus(f, 1), poleS |-> PoleStatus(f, -1),
     hemisphere |-> Hemisphere(f), one_hemisphere |-> Hemisphere(f) # "Straddles", encloses_pole |-> EnclosesPole(f), pole_claim |-> PoleClaim(r),
     min_only_at_bulge_starters |-> OnlyBulgeStarters(f, r.cw, AttainMin(f)),
